@@ -142,9 +142,8 @@ def setter_root(analysis: Analysis, prop: str) -> dict:
     ctx = analysis.context(analysis.versions[-1], "serial", "sync")
     it = analysis.new_interp(ctx)
     st = it.new_state()
-    info = analysis.p.classes["sensor:Sensor"].props[prop]["set"]
     sensor = Sym(("root", "S"), ("cls", "sensor:Sensor"))
-    outs = analysis.run_root(it, info.qual, [Sym(("root", "value"), None, nullable=True)], sensor, st)
+    qual, _node, outs = common.setter_outs(analysis, it, st, "sensor:Sensor", prop, sensor, Sym(("root", "value"), None, nullable=True))
     rows = []
     for out in outs:
         kind, s, v = out
@@ -152,7 +151,7 @@ def setter_root(analysis: Analysis, prop: str) -> dict:
         fell_back = any(e.kind == "catch" for e in s.events)
         val = stored[-1].args[0] if stored else None
         rows.append({"kind": kind, "fallback": fell_back, "const": val.value if isinstance(val, Const) else None, "is_const": isinstance(val, Const), "stored": bool(stored), "exc": v.cls.__name__ if kind == "raise" else None, "witness": describe_path(out)})
-    return {"prop": prop, "qual": info.qual, "rows": rows}
+    return {"prop": prop, "qual": qual, "rows": rows}
 
 
 FALLBACK = {"battery_level": 0, "heartbeat": 0, "protocol_version": "1.4"}
